@@ -30,11 +30,22 @@ Definition eval_oracle (os : ospec) : oracle := fun call notes =>
   | OBySum m r a b => if (Z.to_N (sumZ notes) mod m <? r)%N then a else b
   end.
 
+Inductive eerr := ENothing | EUnfundable | EOther.
+
+(** The real preparation planner is not modelled.  An engine outcome with [k] crossings and [ntx]
+    preparation transactions is compared with the model under the oracle that refuses every layout
+    but the [k]-note one and prices that one at [ntx]. *)
+Definition obs_oracle (k : nat) (ntx : Z) : oracle :=
+  fun _ l => if (length l =? k)%nat then Some (Z.to_N ntx) else None.
+
 Inductive case :=
 | Plan (total nc cap buffer fee : Z) (os : ospec) (o : res planrec) (same_under_other_rng : bool)
 | L125 (hi floor : Z) (o : res Z)
 | IsCanon (v : Z) (o : res bool)
-| Stored (cross : list Z) (buffer : Z) (o : res (list Z)).
+| Stored (cross : list Z) (buffer : Z) (o : res (list Z))
+(* engine::plan_migration_with over a wallet holding [notes]: the denomination plan it previews and
+   the number of preparation transactions of the layout the REAL preparation planner produced *)
+| Engine (notes : list Z) (cap buffer fee : Z) (o : outcome (planrec * Z) eerr) (same_under_other_rng : bool).
 
 Definition lz_eqb := list_eqb Z.eqb.
 Definition unit_eqb (_ _ : unit) := true.
@@ -44,6 +55,19 @@ Definition planrec_eqb (a b : planrec) : bool :=
   && (p_total a =? p_total b) && (p_migr a =? p_migr b) && (p_buf a =? p_buf b)
   && (p_calls a =? p_calls b).
 
+Definition planrec_core_eqb (a b : planrec) : bool :=
+  lz_eqb (p_cross a) (p_cross b) && lz_eqb (p_out a) (p_out b)
+  && option_eqb Z.eqb (p_change a) (p_change b) && (p_fees a =? p_fees b)
+  && (p_total a =? p_total b) && (p_migr a =? p_migr b) && (p_buf a =? p_buf b).
+
+Definition is_nil {A} (l : list A) : bool := match l with [] => true | _ => false end.
+
+Definition model_split_empty (total nc cap buffer fee : Z) : bool :=
+  match unconstrained_split (zip318_strategy cap buffer) total nc fee with
+  | Ok [] => true
+  | _ => false
+  end.
+
 Definition run_case (c : case) : bool :=
   match c with
   | Plan total nc cap buffer fee os o _ =>
@@ -51,6 +75,20 @@ Definition run_case (c : case) : bool :=
   | L125 hi floor o => outcome_eqb Z.eqb unit_eqb (Ok (largest_one_two_five hi floor)) o
   | IsCanon v o => outcome_eqb Bool.eqb unit_eqb (Ok (is_canonical_denomination v)) o
   | Stored cross buffer o => outcome_eqb lz_eqb unit_eqb (stored_outputs cross buffer) o
+  | Engine notes cap buffer fee o _ =>
+      let total := sumZ notes in
+      let nc := Z.of_nat (length notes) in
+      match o with
+      | Ok (p, ntx) =>
+          negb (is_nil (p_cross p))
+          && match plan_denominations total nc cap buffer fee (obs_oracle (length (p_cross p)) ntx) with
+             | Ok pm => planrec_core_eqb pm p
+             | _ => false
+             end
+      | Err ENothing => (total =? 0) || model_split_empty total nc cap buffer fee
+      | Err EUnfundable => (0 <? total) && negb (model_split_empty total nc cap buffer fee)
+      | _ => false
+      end
   end.
 
 (** ** The property on a plan *)
@@ -63,7 +101,8 @@ Definition accepted_answer (os : ospec) (p : planrec) : option N :=
   | _ => eval_oracle os (Nat.pred (Z.to_nat (p_calls p))) (p_out p)
   end.
 
-Definition plan_ok (total nc cap buffer fee : Z) (os : ospec) (p : planrec) : bool :=
+(** the clauses that do not mention the oracle *)
+Definition plan_core_ok (total nc cap buffer fee : Z) (p : planrec) : bool :=
   let single := nc =? 1 in
   let capn := Z.to_nat cap in
   let full := canonical_split capn total buffer fee single in
@@ -79,7 +118,14 @@ Definition plan_ok (total nc cap buffer fee : Z) (os : ospec) (p : planrec) : bo
   (* conservation; change is reported only when positive *)
   && (sumZ (p_out p) + p_fees p + optZ (p_change p) =? total)
   && (match p_change p with Some c => 0 <? c | None => true end)
-  && (0 <=? p_fees p)
+  && (0 <=? p_fees p).
+
+Definition plan_ok (total nc cap buffer fee : Z) (os : ospec) (p : planrec) : bool :=
+  let single := nc =? 1 in
+  let capn := Z.to_nat cap in
+  let full := canonical_split capn total buffer fee single in
+  let cross := p_cross p in
+  plan_core_ok total nc cap buffer fee p
   (* the reserved fees are the accepted layout's transaction count times the fee, exactly *)
   && (match accepted_answer os p with
       | Some n => p_fees p =? Z.of_N n * fee
@@ -113,6 +159,20 @@ Definition prop_case (c : case) : bool :=
       | Err _ => existsb (fun c => MAX_MONEY <? c + buffer) cross
       | Panic => false
       end
+  | Engine notes cap buffer fee o same =>
+      let total := sumZ notes in
+      let nc := Z.of_nat (length notes) in
+      let full := canonical_split (Z.to_nat cap) total buffer fee (nc =? 1) in
+      same && match o with
+              | Ok (p, ntx) =>
+                  (* the engine only returns a plan that migrates something; its reserved fees are
+                     the real layout's transaction count times the fee *)
+                  negb (is_nil (p_cross p)) && plan_core_ok total nc cap buffer fee p
+                  && (0 <=? ntx) && (p_fees p =? ntx * fee)
+              | Err ENothing => (total =? 0) || is_nil full
+              | Err EUnfundable => (0 <? total) && negb (is_nil full)
+              | _ => false
+              end
   end.
 
 Definition known_class (c : case) : N := 0%N.
@@ -153,4 +213,15 @@ Definition tag_case (c : case) : N :=
       end
   | IsCanon v o => match o with Ok true => 27%N | Ok false => if (v <? MIN) || (CAP <? v) then 28%N else 29%N | _ => 30%N end
   | Stored _ _ o => match o with Ok _ => 31%N | Err _ => 32%N | Panic => 33%N end
+  | Engine notes cap buffer fee o _ =>
+      let total := sumZ notes in
+      let nc := Z.of_nat (length notes) in
+      let full := canonical_split (Z.to_nat cap) total buffer fee (nc =? 1) in
+      match o with
+      | Ok (p, ntx) => if ntx =? 0 then 41%N
+                       else if (length (p_cross p) =? length full)%nat then 42%N else 43%N
+      | Err ENothing => if total =? 0 then 44%N else 45%N
+      | Err EUnfundable => 46%N
+      | _ => 47%N
+      end
   end.
